@@ -496,6 +496,37 @@ format_region(struct ev_spec *spec, struct cursor *c, struct emu_ev *ev)
 	return 0;
 }
 
+/* Ensures the payload of the event holds the arguments declared in the
+ * spec, so they can be read at the declared offsets. Returns 0 if so. */
+int
+ev_spec_check_payload(struct ev_spec *spec, struct emu_ev *ev)
+{
+	if (spec->nargs == 0)
+		return 0;
+
+	if (ev->payload == NULL || ev->payload_size < spec->payload_size
+			|| (ev->is_jumbo != 0) != (spec->is_jumbo != 0)) {
+		err("event %s payload doesn't match declaration", ev->mcv);
+		return -1;
+	}
+
+	const uint8_t *payload = (const uint8_t *) ev->payload;
+	for (int i = 0; i < spec->nargs; i++) {
+		struct ev_arg *arg = &spec->args[i];
+		if (arg->type != STR)
+			continue;
+
+		/* The string must end inside the payload */
+		size_t left = ev->payload_size - arg->offset;
+		if (left == 0 || memchr(&payload[arg->offset], '\0', left) == NULL) {
+			err("event %s has an unterminated string argument", ev->mcv);
+			return -1;
+		}
+	}
+
+	return 0;
+}
+
 int
 ev_spec_print(struct ev_spec *spec, struct emu_ev *ev, char *outbuf, int outlen)
 {
